@@ -1162,3 +1162,165 @@ Example cli_depth_on_the_diamond :
   cli_lines 6 w_diamond (nd "a" "1") true false (DLe 2) = Ok [nd "a" "1"; nd "b" "1"; nd "c" "2"] /\
   cli_lines 6 w_diamond (nd "a" "1") true false (DGt 2) = Ok [nd "d" "1"; nd "e" "1"; stub "ghost" None].
 Proof. vm_compute. auto. Qed.
+
+(* ================================================================== sessions: one long-lived instance *)
+(* The database changes between two queries put to ONE Eups instance, and it changes through that instance:
+   Eups.assignTag / unassignTag / declare (a new version, or only a tag) / undeclare (Model/UsesSeq.v gives their
+   effect on a database of declared products, table lines as written and the chain file current, and the world of
+   resolved edges that database denotes).  The property speaks of the listings and of the users for the database as
+   it is when the question is asked: whatever an instance remembers from earlier calls (the product cache, Product
+   and Table objects, an index of users) must be invisible.  In the model that is a triviality - the listings and
+   the index of users have no other argument than the world - and that is the point: the correspondence check puts
+   sessions query / change / query to one real instance (and to a fresh one at every step) and compares every answer
+   with the model run on the world current at that step, so anything the code keeps across a change shows as a
+   difference, and the inverse-relation oracle is evaluated on the real answers of every step. *)
+
+From Eupsv Require Import Model.UsesSeq Proofs.UsesSeq.
+
+(* the listings and the users depend on nothing but the world the database denotes now: two sessions (from any two
+   initial databases, through any changes) that lead to the same world get the same answer to every question *)
+Theorem uses_is_a_function_of_the_world extra db1 ops1 db2 ops2 q :
+  world_after extra db1 ops1 = world_after extra db2 ops2 ->
+  answer_on (world_after extra db1 ops1) q = answer_on (world_after extra db2 ops2) q.
+Proof. intros E. now rewrite E. Qed.
+Print Assumptions uses_is_a_function_of_the_world.
+
+(* the answer an instance gives after a session of questions and changes is the answer on the world the changes lead
+   to; the questions asked before leave no trace *)
+Theorem session_answer_is_on_the_current_world extra db h q :
+  run_session extra db (h ++ [SAsk q]) =
+  run_session extra db h ++ [answer_on (world_after extra db (changes_of h)) q].
+Proof. apply session_last_answer. Qed.
+Print Assumptions session_answer_is_on_the_current_world.
+
+(* every question of every session is answered: no listing and no uses query raises, whatever the changes made the
+   database into (two versions of one product reached by one user, cycles, lines that no longer resolve) *)
+Theorem session_never_raises extra db h a :
+  In a (run_session extra db h) ->
+  match a with AUses r => exists us, r = Ok us | ADeps r => exists l, r = Ok l end.
+Proof.
+  intros I. destruct (session_answers extra db h a I) as [h1 [q [h2 [_ ->]]]]. apply answer_on_ok.
+Qed.
+Print Assumptions session_never_raises.
+
+(* after any changes, Y is reported as a user of X exactly when Y is declared NOW and a product named X [of that
+   version] is in the topological listing Y has NOW ... *)
+Theorem uses_inverse_after_changes extra db ops x ov us y :
+  let w := world_after extra db ops in
+  uses (fuel_of w) w x ov = Ok us ->
+  (In y (map cuser us) <->
+   In y (map fst w) /\
+   exists l, dependent_products (fuel_of w) w (pnode y) true = Ok l /\ exists q, In q (map enode l) /\ matches x ov q).
+Proof.
+  intros w U. unfold uses in U. destruct (uses_index (fuel_of w) w) as [idx|] eqn:Ei; [|discriminate].
+  exact (uses_inverse_listing (fuel_of w) w idx x ov us y Ei U).
+Qed.
+Print Assumptions uses_inverse_after_changes.
+
+(* ... that is, exactly when Y reaches such a product through the table lines as they resolve NOW *)
+Theorem uses_inverse_after_changes_reachability extra db ops x ov us y :
+  let w := world_after extra db ops in
+  uses (fuel_of w) w x ov = Ok us ->
+  (In y (map cuser us) <->
+   In y (map fst w) /\ exists q, q <> pnode y /\ reach_plus w (pnode y) q /\ matches x ov q).
+Proof.
+  intros w U. unfold uses in U. destruct (uses_index (fuel_of w) w) as [idx|] eqn:Ei; [|discriminate].
+  exact (uses_inverse_reach (fuel_of w) w idx x ov us y (fuel_of_enough w) Ei U).
+Qed.
+Print Assumptions uses_inverse_after_changes_reachability.
+
+(* the world of every database is well formed (a resolved edge points at a declared product, an unresolved line with a
+   version names no declared one), so the ordering and cycle theorems above apply at every step of every session *)
+Theorem session_worlds_wellformed extra db ops :
+  extras_plain extra -> wf_world (world_after extra db ops).
+Proof. intros Hx. apply world_of_wf, Hx. Qed.
+Print Assumptions session_worlds_wellformed.
+
+(* moving the tag current of n to the declared version v (assignTag, or declare with only a tag) changes what the bare
+   lines for n denote - they now denote n v - and nothing else: no other line of any table resolves differently *)
+Theorem retag_moves_the_bare_lines_only db n v l :
+  sdeclared db n v = true ->
+  apply_op db (SAssign n v) = apply_op db (SDeclareTag n v) /\
+  (tl_name l = n -> tl_vers l = None ->
+   resolve_line (apply_op db (SAssign n v)) l = mkEdge n None (Some v) (tl_opt l)) /\
+  (tl_name l <> n \/ tl_vers l <> None ->
+   resolve_line (apply_op db (SAssign n v)) l = resolve_line db l).
+Proof.
+  intros D. rewrite (apply_assign_declared db n v D), (apply_declare_tag_declared db n v D).
+  split; [reflexivity|]. split.
+  - intros Hn Hv. exact (resolve_line_retag_bare db n v l D Hn Hv).
+  - intros H. exact (resolve_line_retag_other db n v l H).
+Qed.
+Print Assumptions retag_moves_the_bare_lines_only.
+
+(* ... so after the move the inverse relation is that of the new edges: every other product whose table holds a bare line
+   for n is reported as a user of n v, whatever version it used before *)
+Theorem retag_makes_bare_dependents_users extra db n v y ls l us :
+  sdeclared db n v = true ->
+  lines_of (sd_decl db) (fst y) (snd y) = Some ls -> In l ls -> tl_name l = n -> tl_vers l = None ->
+  y <> (n, v) ->
+  let w := world_after extra db [SAssign n v] in
+  uses (fuel_of w) w n (Some v) = Ok us ->
+  In y (map cuser us).
+Proof.
+  intros D L I Hn Hv Ny w U. unfold w, world_after, db_after in U. cbn [fold_left] in U.
+  rewrite (apply_assign_declared db n v D) in U.
+  exact (users_after_retag extra db n v y ls l us D L I Hn Hv Ny U).
+Qed.
+Print Assumptions retag_makes_bare_dependents_users.
+
+(* taking the tag away leaves the bare lines for n unresolved: they are listed as the stub n None *)
+Theorem untag_leaves_the_bare_lines_unresolved db n l :
+  tl_name l = n -> tl_vers l = None -> resolve_line (untag db n) l = mkEdge n None None (tl_opt l).
+Proof. exact (resolve_line_untag_bare db n l). Qed.
+Print Assumptions untag_leaves_the_bare_lines_unresolved.
+
+(* a session: x 1 (current), x 2 -> base, y -> x (bare), z -> x 1 and x 2 (two versions of one product) *)
+Definition tl (n : string) (v : option string) (o : bool) : tline := mkTL (lit n) (option_map lit v) o.
+Definition db_session : sdb :=
+  mkSdb [((lit "x", lit "1"), []); ((lit "x", lit "2"), [tl "base" None false]); ((lit "base", lit "1"), []);
+         ((lit "y", lit "1"), [tl "x" None false]);
+         ((lit "z", lit "1"), [tl "x" (Some "1") false; tl "x" (Some "2") true])]
+        [(lit "x", lit "1"); (lit "base", lit "1"); (lit "y", lit "1"); (lit "z", lit "1")].
+Definition x_implicit : list edge := [ed "implicitProducts" None None true].
+Definition user_names (a : sanswer) : list (string * string) :=
+  match a with
+  | AUses (Ok us) => map (fun c => (String.string_of_list_ascii (fst (cuser c)), String.string_of_list_ascii (snd (cuser c)))) us
+  | _ => []
+  end.
+
+(* the users of x 2 and of base before the tag moves, after it moved to x 2 (y now reaches x 2 and base), after it was
+   taken away (y lists the stub x None), after x 3 -> base 1 was declared and x 2 undeclared *)
+Example session_answers_follow_the_database :
+  map user_names
+      (run_session x_implicit db_session
+         [SAsk (QUses (lit "x") (Some (lit "2"))); SAsk (QUses (lit "base") None);
+          SChange (SAssign (lit "x") (lit "2"));
+          SAsk (QUses (lit "x") (Some (lit "2"))); SAsk (QUses (lit "base") None);
+          SChange (SUnassign (lit "x") None);
+          SAsk (QUses (lit "x") (Some (lit "2"))); SAsk (QUses (lit "x") None);
+          SChange (SDeclare (lit "x") (lit "3") [tl "base" (Some "1") false] true);
+          SChange (SUndeclare (lit "x") (lit "2"));
+          SAsk (QUses (lit "base") None); SAsk (QUses (lit "x") (Some (lit "2")))])
+  = [ [("z", "1")];                          [("x", "2"); ("z", "1")];
+      [("y", "1"); ("z", "1")];              [("x", "2"); ("y", "1"); ("z", "1")];
+      [("z", "1")];                          [("y", "1"); ("z", "1"); ("z", "1")];
+      [("x", "3"); ("y", "1")];              [("z", "1")] ]%string.
+Proof. vm_compute. reflexivity. Qed.
+
+(* an index of users computed before the tag moved is NOT the inverse relation afterwards: it lacks y as a user of x 2,
+   which y reaches in the world after the move.  An instance that answered from it would violate the property. *)
+Example index_of_the_old_world_refuted :
+  let w0 := world_of x_implicit db_session in
+  let w1 := world_after x_implicit db_session [SAssign (lit "x") (lit "2")] in
+  (exists idx us, uses_index (fuel_of w0) w0 = Ok idx /\ users idx (lit "x") (Some (lit "2")) = Ok us /\
+                  ~ In (lit "y", lit "1") (map cuser us)) /\
+  step w1 (nd "y" "1") (nd "x" "2") /\
+  (exists us, uses (fuel_of w1) w1 (lit "x") (Some (lit "2")) = Ok us /\ In (lit "y", lit "1") (map cuser us)).
+Proof.
+  split; [|split].
+  - eexists _, _. split; [vm_compute; reflexivity|]. split; [vm_compute; reflexivity|].
+    simpl. intros [H|[]]. discriminate H.
+  - eexists _, (ed "x" None (Some "2") false). split; [vm_compute; reflexivity|]. split; [left; reflexivity | reflexivity].
+  - eexists. split; [vm_compute; reflexivity|]. simpl. left. reflexivity.
+Qed.
